@@ -213,4 +213,17 @@ def obsNotEarly (d tol : Nat) (arr : List Nat) : Bool := obsNotEarlyFrom d tol 0
 def obsCountOk (d tol fin : Nat) (arr : List Nat) : Bool :=
   decide (arr.length ≤ 1 + (fin + tol) / d)
 
+/-- The LOWER bound of `resend_count_ge_under_latency` as a predicate on an observation: with interval `d`,
+    latency bound `L`, `t0` an instant NOT BEFORE the model's `t0` on the observer's clock (for instance the
+    arrival of the first datagram — the opposite direction to the origin of the upper bounds, which must
+    not be after it) and `fin` an instant of observation while the call still waits, at least
+    `(fin - t0 - L) / d` retransmissions (plus the first write) have been seen.
+    This is what would be asserted on a quiet machine.  The driver does NOT evaluate it: a loaded sandbox
+    does not meet the latency hypothesis (`responsive L`, `settled`) under which
+    `observation_lower_bound_under_latency` proves it, so it would alarm on the unchanged code.  A ticker
+    that is merely SLOWER than `Retry` (the change this bound would catch) is covered by the regenerated
+    fact `tickerPeriodIsRetry` (Facts/TieC08.lean) instead. -/
+def obsCountGe (d L t0 fin : Nat) (arr : List Nat) : Bool :=
+  decide ((fin - t0 - L) / d + 1 ≤ arr.length)
+
 end RV.Exchange.Timed
